@@ -330,12 +330,12 @@ def oracle(ctx: Ctx, sc: dict, tr: dict) -> dict:
         out["class"] = "gone"
         lb = f.last_body
         if lb is not None and lb["metadata"].get("deletionTimestamp") and FINALIZER in (lb["metadata"].get("finalizers") or []):
-            # the deletion went through the framework's finalizer: every matching deletion handler has a final outcome
+            # the deletion went through the framework's finalizer: every matching MANDATORY deletion handler has a final outcome
             # from a pass on the object marked for deletion
             out["class"] = "gone-released"
             for h in _changing(sc):
-                if h["kind"] != "delete" or not py_matches(h, lb):
-                    continue
+                if h["kind"] != "delete" or h.get("opts", {}).get("optional") or not py_matches(h, lb):
+                    continue        # optional deletion handlers run only if the object happens to be still held
                 ev = [c for c in tr["cycles"] if c["uid"] == f.uid and c.get("pcc") and c["body"]["metadata"].get("deletionTimestamp")
                       and (c["pcc"].get("outcomes") or {}).get(h["id"], {}).get("final")]
                 if not ev and not f.cross_uid:
@@ -523,6 +523,8 @@ def abstract_tail(sc: dict, tr: dict, cap: int) -> tuple[list | None, Any]:
         # not modelled: with a constant no-op patch in every cycle, the cycle after a keepalive touch that wakes nobody
         # sends that patch TOGETHER with the touch-dummy cleanup — which does change the object: one more PATCH + echo
         return None, "const-patch+keepalive"
+    if any(float(w["t1"]) >= f.t_for for w in sc.get("wfaults", [])):
+        return None, "fault-window-in-tail"   # the closing edit of the window had no effect (e.g. the object was gone by then)
     if f.cross_uid:
         return None, "cross-uid-write"      # not silent: a write of the deleted predecessor's cycle landed on this object
     if any(x != FINALIZER for x in (f.last_body["metadata"].get("finalizers") or [])):
